@@ -3,6 +3,7 @@ mod c04;
 mod corescn;
 mod model;
 mod ops;
+mod persist;
 mod props_core;
 mod props_session;
 mod real;
@@ -59,6 +60,9 @@ fn main() {
         std::process::exit(2);
     }
     real::init_base_config();
+    if args[1] == "persist-child" {
+        std::process::exit(persist::child_main(&args[2..]));
+    }
     mc::util::install_quiet_panic_hook();
     let property = args[1].as_str();
     let known = Known::load();
@@ -98,6 +102,8 @@ fn main() {
             "every history over the listed request alphabet (mutators + ls subscriptions at every position) up to the completed depth, de-duplicated by a complete state snapshot; distinct_nontrivial counts distinct (request kind, answer class) pairs observed",
         ),
         "C04" => c04::run(&tier),
+        "C09" => persist::run_c09(&tier),
+        "C10" => persist::run_c10(&tier),
         "C13" => run_scenarios(
             "C13",
             &tier,
